@@ -50,3 +50,36 @@ Definition pager_mirror_certified_stmt : Prop :=
       forall a shift,
         (shift = true -> exists i, In i closed /\ nth_error (rhs g (it_p i)) (it_d i) = Some (T a)) ->
         (cell_count g closed a shift <= 1)%nat.
+
+(* ---- the graph is closed under goto, up to inclusion of contexts ------------------------
+
+   G ⊑ K: the same cores, every lookahead of G present in K.  In the returned
+   graph: state 0 is the start kernel; every state s with a non-empty
+   goto(closure(core s), X) has an edge on X, to a state whose core includes
+   that goto ([pager_mirror_edges_complete]); and every edge is of this kind
+   ([pager_mirror_edges_sound]).  This is the fixed point the work list of
+   pager_stategraph exists for; it holds for any oracle of hash orders. *)
+Definition sub_kernel (G K : itemset) : Prop :=
+  same_cores G K /\ forall k a, has_la G k a -> has_la K k a.
+
+Definition pager_mirror_edges_complete_stmt : Prop :=
+  forall g nl fs max_st fuel orders pg, loop_pre g nl fs ->
+    pager_mirror g nl fs max_st fuel orders = Done pg ->
+    length (pg_edges pg) = length (pg_states pg) /\
+    (exists closed0, nth_error (pg_states pg) 0 = Some (start_kernel g, closed0)) /\
+    forall s core closed es X G,
+      nth_error (pg_states pg) s = Some (core, closed) -> nth_error (pg_edges pg) s = Some es ->
+      is_goto g core X G -> (exists k, has_core G k) ->
+      exists t core_t closed_t,
+        assoc_sym X es = Some t /\ nth_error (pg_states pg) t = Some (core_t, closed_t) /\
+        sub_kernel G core_t.
+
+Definition pager_mirror_edges_sound_stmt : Prop :=
+  forall g nl fs max_st fuel orders pg, loop_pre g nl fs ->
+    pager_mirror g nl fs max_st fuel orders = Done pg ->
+    forall s core closed es X t,
+      nth_error (pg_states pg) s = Some (core, closed) -> nth_error (pg_edges pg) s = Some es ->
+      assoc_sym X es = Some t ->
+      exists G core_t closed_t,
+        is_goto g core X G /\ (exists k, has_core G k) /\
+        nth_error (pg_states pg) t = Some (core_t, closed_t) /\ sub_kernel G core_t.
